@@ -740,7 +740,9 @@ def qrule_group(repo, res):
             names = ["vertex"]
         else:
             names = []
-        tag = lambda n_: f"{n_},{degree},{scheme},{elements},{tp}"  # noqa: E731
+        # the real callee ignores the tensor flag for everything but cell integrals (OPT-GATE quadrature matrix), so does the model
+        tp_ = bool(tp) and itype == "cell"
+        tag = lambda n_: f"{n_},{degree},{scheme},{elements},{tp_}"  # noqa: E731
         return ({n_: f"P[{tag(n_)}]" for n_ in names}, {n_: f"W[{tag(n_)}]" for n_ in names}, {})
 
     def mk():
